@@ -63,6 +63,9 @@ pub const TEMPLATES: &[&str] = &[
     "return `a{ b }c`",
     "return `{ a }{ b }`",
     "return `a{ `b{ c }` }`",
+    // a table first in an interpolated value: `{{` must never be written
+    "return `{ { a } }`",
+    "return `a{ { } }b{ { a , b } }`",
     "return a :: number",
     "return ( a :: any ) . b",
     "return \"s\" , 's' , [[s]] , [==[s]==]",
